@@ -464,7 +464,7 @@ def gen_scenario(rng: Any, i: int) -> dict:
             # conflict, then the cycle that carries the transformation fails on an API error, then a later event
             sc["c08_slips"].append({"kind": "jsonBody", "nth": 1, "op": ["edit", {"spec": {"x": 50}}]})
             sc["faults"].append({"match": {"method": "PATCH", "path_contains": "kopfexamples/a", "ctype": "json-patch", "nth": 2},
-                                 "fault": ["status", rng.choice([409, 403, 400])]})
+                                 "fault": ["status", rng.choice([409, 400])]})
             sc["timeline"].append([rng.choice([4.0, 6.0]), "edit", "a", {"metadata": {"labels": {"again": "1"}}}])
             sc["timeline"].append([12.0, "edit", "a", {"metadata": {"labels": {"again": "2"}}}])
             sc["end"] = 40.0
@@ -619,7 +619,7 @@ def model_requests(tr: dict) -> list[tuple[list, dict]]:
     for o in tr["patch_calls"]:
         if o["outcome"]["kind"] == "cancelled" or o["orig"] is None or o["interleaved"]:
             continue
-        if any(d[0] == "unknown" for d in o["fns"]) or any(r["code"] not in (200, 404, 422) for r in o["reqs"]):
+        if any(d[0] == "unknown" for d in o["fns"]) or any(not isinstance(r["code"], int) or r["code"] >= 500 for r in o["reqs"]):
             continue
         if any(r["slip"] is not None and r["slip"][0] == "addFin" for r in o["reqs"]):
             slips = {}
